@@ -676,12 +676,53 @@ func ruleC06Trigger(w *World, r *Report) {
 	r.check(bad5 < 0 && n5 == 128, "R06.5", w.FuncName(h5), "has5thBit ⇔ CHV4 flag (0x10), all 256 values (satisfiable)", w.Pos(h5.Pos()), "table agrees", fmt.Sprintf("has5thBit(%#x) is wrong (true for %d of 256 values)", bad5, n5))
 	// needAllocIP = !(V4 && !CHV4): the function is interpreted for the four valuations of the two
 	// predicates (whatever its shape: early returns, a boolean expression, a switch)
+	// the flags octet may also be handed in by the caller: a parameter that every call site feeds from
+	// UEIPAddressFields.Flags
+	flagsParam := func(v ssa.Value) bool {
+		prm, ok := v.(*ssa.Parameter)
+		if !ok || prm.Parent() != need {
+			return false
+		}
+		idx := -1
+		for i, q := range need.Params {
+			if q == prm {
+				idx = i
+			}
+		}
+		sites := 0
+		good := true
+		for f := range w.allFuncs() {
+			for _, c := range callsTo(f, need) {
+				sites++
+				if idx < 0 || idx >= len(c.Common().Args) {
+					good = false
+					continue
+				}
+				// a read of field Flags of a UEIPAddressFields
+				isFlags := false
+				switch a := c.Common().Args[idx].(type) {
+				case *ssa.UnOp:
+					if fa, ok := a.X.(*ssa.FieldAddr); ok && a.Op == token.MUL && fieldVar(fa) != nil && fieldVar(fa).Name() == "Flags" && rootTypeName(fa.X.Type()) == "UEIPAddressFields" {
+						isFlags = true
+					}
+				case *ssa.Field:
+					if fieldVar(a) != nil && fieldVar(a).Name() == "Flags" && rootTypeName(a.X.Type()) == "UEIPAddressFields" {
+						isFlags = true
+					}
+				}
+				if !isFlags {
+					good = false
+				}
+			}
+		}
+		return good && sites > 0
+	}
 	n := 0
 	for _, v4 := range []bool{false, true} {
 		for _, ch := range []bool{false, true} {
 			foreign := ""
 			got, okE := evalBoolFunc(need, func(c *ssa.Call) (bool, bool) {
-				if !strings.HasSuffix(symOf(c.Call.Args[0]).String(), "UEIPAddressFields.Flags") {
+				if !strings.HasSuffix(symOf(c.Call.Args[0]).String(), "UEIPAddressFields.Flags") && !flagsParam(c.Call.Args[0]) {
 					foreign = symOf(c.Call.Args[0]).String()
 					return false, false
 				}
